@@ -377,7 +377,7 @@ pub fn classical_line(rng: &mut Rng, nreg: usize) -> String {
     let a = region(rng, nreg);
     let b = region(rng, nreg);
     let c = region(rng, nreg);
-    match rng.below(12) {
+    match rng.below(14) {
         0 => format!("MOVE {a}[0] 1"),
         1 => format!("MOVE {a}[0] {b}[0]"),
         2 => format!("ADD {a}[0] 1"),
@@ -389,6 +389,8 @@ pub fn classical_line(rng: &mut Rng, nreg: usize) -> String {
         8 => format!("EQ {a}[0] {b}[0] {c}[0]"),
         9 => "NOP".to_string(),
         10 => "PRAGMA note".to_string(),
+        11 => format!("EXCHANGE {a}[0] {a}[1]"),
+        12 => format!("STORE {a} {a}[0] {a}[1]"),
         _ => format!("CONVERT {a}[0] {b}[0]"),
     }
 }
@@ -399,7 +401,14 @@ pub fn rf_line(rng: &mut Rng, nframes: usize, nreg: usize) -> String {
     let a = region(rng, nreg);
     let nb = if rng.chance(1, 3) { "NONBLOCKING " } else { "" };
     let d = duration(rng);
-    match rng.below(16) {
+    let b = region(rng, nreg);
+    match rng.below(20) {
+        // an instruction whose read set overlaps its capture set (through a waveform parameter / the duration
+        // expression), on the same or on another region
+        16 => format!("{nb}CAPTURE {f} flat(duration: {d}, iq: {a}[1]) {a}[0]"),
+        17 => format!("{nb}CAPTURE {f} flat(duration: {d}, iq: {b}[1], scale: {a}[2]) {a}[0]"),
+        18 => format!("{nb}RAW-CAPTURE {f} {a}[0] {a}"),
+        19 => format!("{nb}RAW-CAPTURE {f} {b}[0] {a}[1]"),
         0 | 1 | 2 => format!("{nb}PULSE {f} flat(duration: {d}, iq: 1.0)"),
         3 | 4 => format!("{nb}CAPTURE {f} flat(duration: {d}, iq: 1.0) {a}[0]"),
         5 => format!("{nb}RAW-CAPTURE {f} {d} {a}[0]"),
